@@ -125,6 +125,7 @@ def finish(run, prop, findings, broken, replay_how):
     """Common verdict: findings = concrete failing inputs (dicts with a 'what'); broken = ties/proofs that no longer check."""
     known = vlib.known_findings(prop)
     said = set()
+    per_kind = {}
     for f in findings:
         k = next((e for e in known if e.get("match") and all(f.get(a) == v for a, v in e["match"].items())), None)
         if k:
@@ -133,7 +134,11 @@ def finish(run, prop, findings, broken, replay_how):
                 said.add(w)
                 run.known(w)
         else:
-            run.violation({"property": prop, "failing_input": f, "how_to_replay": replay_how, "broken": broken})
+            per_kind[f.get("kind")] = per_kind.get(f.get("kind"), 0) + 1
+            if per_kind[f.get("kind")] <= 3:       # at most three replays per kind of failure; the rest are counted
+                run.violation({"property": prop, "failing_input": f, "how_to_replay": replay_how, "broken": broken})
+    if any(v > 3 for v in per_kind.values()):
+        run.note("further failing inputs not written as replays: %s" % {k: v - 3 for k, v in per_kind.items() if v > 3})
     if broken and not run.violations:
         run.violation({"property": prop, "broken": broken,
                        "note": "a proof obligation, the translation or the model/code correspondence no longer checks and the search found no failing input"},
